@@ -5,6 +5,7 @@ package proxy
 import (
 	"context"
 	"reflect"
+	"strconv"
 	"time"
 
 	v1 "github.com/fatedier/frp/pkg/config/v1"
@@ -404,4 +405,15 @@ func VerifC19Phase() {
 		}
 		phase = st.Phase
 	}
+}
+
+// stub for encoding/json.Marshal (reflection-driven, not encoded): frp's reload path does not use it,
+// but an edit of that path may (comparing registration messages by their wire form): a registration
+// message is rendered by the fields these scenarios vary, injectively
+func c19StubJSONMarshal(v any) ([]byte, error) {
+	if m, ok := v.(*msg.NewProxy); ok {
+		return []byte(m.ProxyName + "|" + m.ProxyType + "|" + strconv.Itoa(m.RemotePort) + "|" + strconv.FormatBool(m.UseEncryption) + strconv.FormatBool(m.UseCompression)), nil
+	}
+	zzverif.Unsupported("json.Marshal of something else than a registration message")
+	return nil, nil
 }
